@@ -542,6 +542,7 @@ func (e *env) arrive(data []byte) {
 	m := e.metaByData[e.key(data)]
 	if m == nil {
 		m = &pktMeta{kind: "net-corrupt", data: data}
+		s.Logf("net-corrupt datagram of %d bytes: %s", len(data), e.nearest(data))
 	}
 	// identity-header bytes altered in flight: the server reads them only when it opens a session
 	eihAltered := string(m.data) != string(data)
@@ -593,6 +594,29 @@ func (e *env) arrive(data []byte) {
 		e.onClientAccept(m, now)
 	}
 	m.sess.model.record(m.id)
+}
+
+// nearest says how an unknown datagram differs from the known one closest to it (diagnostics).
+func (e *env) nearest(data []byte) string {
+	bestKey, bestDiff, desc := "", 1<<30, "no known datagram resembles it"
+	for _, m := range e.metaByData {
+		n := min(len(m.data), len(data))
+		diff, first := 0, -1
+		for i := 0; i < n; i++ {
+			if m.data[i] != data[i] {
+				diff++
+				if first < 0 {
+					first = i
+				}
+			}
+		}
+		diff += max(len(m.data), len(data)) - n
+		if diff < bestDiff || diff == bestDiff && string(m.data) < bestKey {
+			bestKey, bestDiff = string(m.data), diff
+			desc = fmt.Sprintf("closest known datagram: kind %s id %d len %d, %d byte(s) differ, first at offset %d", m.kind, m.id, len(m.data), diff, first)
+		}
+	}
+	return desc
 }
 
 // key identifies a datagram. The identity header of a client packet (bytes 16..32 with a
